@@ -198,6 +198,15 @@ func ReadInputWithFallback(args []string) (*InputResult, error) {
 // ShouldReadFromStdin determines if we should read from stdin based on args.
 // Returns true only when stdin actually has piped data available.
 // When stdin is a TTY (interactive terminal), returns false to avoid blocking.
+// rejectInputsNextToStdin refuses "-" followed by further arguments: only stdin
+// would be read, and the other inputs would silently not count towards the verdict.
+func rejectInputsNextToStdin(args []string) error {
+	if len(args) > 1 && args[0] == "-" {
+		return fmt.Errorf("the stdin marker \"-\" cannot be combined with other inputs (%d more given)", len(args)-1)
+	}
+	return nil
+}
+
 func ShouldReadFromStdin(args []string) bool {
 	// Explicit stdin marker — only honor if stdin is actually piped
 	if len(args) > 0 && args[0] == "-" {
